@@ -381,20 +381,18 @@ impl<K: Hash + Eq, V, FH: BuildHasher, RH: BuildHasher> Cache<K, V>
         }
 
         // check if the value is already in probationary segment and move it to protected segment
-        if self.probationary.contains(&k) {
-            return self
-                .probationary
-                .remove_and_return_ent(&k)
-                .and_then(|mut ent| {
-                    unsafe {
-                        let ent_ptr = ent.as_mut();
-                        swap_value(&mut v, ent_ptr);
-                    }
-                    self.protected
-                        .put_or_evict_nonnull(ent)
-                        .map(|evicted_ent| self.probationary.put_nonnull(evicted_ent))
-                })
-                .unwrap_or(PutResult::<K, V>::Update(v));
+        if let Some(mut ent) = self.probationary.remove_and_return_ent(&k) {
+            unsafe {
+                let ent_ptr = ent.as_mut();
+                swap_value(&mut v, ent_ptr);
+            }
+            // the entry pushed out of the protected segment (if any) is demoted, not evicted:
+            // there is room for it because we just took one entry out of probationary
+            if let Some(demoted_ent) = self.protected.put_or_evict_nonnull(ent) {
+                self.probationary.put_nonnull(demoted_ent);
+            }
+            // the key was already in the cache: this is an update, hand the old value back
+            return PutResult::Update(v);
         }
 
         // this is a new entry
